@@ -121,7 +121,7 @@ fn pattern(rng: &mut Rng, p: usize, kind: usize) -> Option<Vec<u8>> {
 /// A long total for period p: compression cost grows like n^2/p (the LZ13 header computation rescans to the end
 /// of the input for every displacement that is a multiple of the period), so n scales with sqrt(p).
 fn long_total(p: usize) -> usize {
-    (((p as f64).sqrt() * 16000.0) as usize).clamp(20_000, 1_000_000)
+    (((p as f64).sqrt() * 24000.0) as usize).clamp(20_000, 1_000_000)
 }
 
 /// LZ-style synthetic data: random seed bytes, then copies of chosen length from chosen distances (overlapping
@@ -261,7 +261,7 @@ fn cmd_size(out_path: &str) {
     // periods that also get a long total (10^4 .. 10^6 bytes): the fixed list plus a seeded sample
     let mut long_periods: Vec<usize> = vec![1, 2, 17, 40, 100, 257, 1000, 2048, 4090, 4096];
     let mut prng = Rng::new(seed ^ 0x10A6);
-    for _ in 0..(if quick { 10 } else { 300 }) {
+    for _ in 0..(if quick { 50 } else { 1000 }) {
         long_periods.push(prng.range(40, 4096));
     }
     let mut jobs: Vec<(&'static str, usize, usize, usize)> = Vec::new();
